@@ -20,7 +20,7 @@ func c03(c *an.Ctx) {
 	p := c.P
 	const dp, mp = "diff", "merge"
 
-	c.Check("R-CLOSED", "diffMap/diffArray store only encoded values into a delta", 5, func(o *an.O) {
+	c.Check("R-CLOSED", "diffMap/diffArray store only encoded values into a delta", 4, func(o *an.O) {
 		for _, nm := range []string{"diffMap", "diffArray"} {
 			fn := c.NeedFunc(dp, nm)
 			n := 0
@@ -67,6 +67,196 @@ func c03(c *an.Ctx) {
 			if n == 0 {
 				o.Fail(p.Pos(fn.Pos()), "%s builds no delta map", nm)
 			}
+		}
+	})
+
+	c.Check("R-POST", "diffMap: a key present on only one side always gets a delta entry (merge only creates/removes keys the delta mentions)", 2, func(o *an.O) {
+		fn := c.NeedFunc(dp, "diffMap")
+		oldP := fn.Params[0]
+		// the typed new map: extract #0 of the comma-ok assertion of the second parameter
+		var newM ssa.Value
+		an.Instrs(fn, func(i ssa.Instruction) {
+			if ta, ok := i.(*ssa.TypeAssert); ok && ta.X == ssa.Value(fn.Params[1]) && ta.CommaOk {
+				newM = extractOf(ta, 0)
+			}
+		})
+		an.Need(newM != nil, "typed new map in diffMap")
+		var delta ssa.Value
+		an.Instrs(fn, func(i ssa.Instruction) {
+			if mm, ok := i.(*ssa.MakeMap); ok {
+				delta = mm
+			}
+		})
+		an.Need(delta != nil, "delta map in diffMap")
+		sides := []struct {
+			ranged, probed ssa.Value
+			what           string
+		}{
+			{oldP, newM, "a field that disappears (present in old, absent in new)"},
+			{newM, oldP, "a field that appears (absent in old, present in new)"},
+		}
+		for _, side := range sides {
+			// the loop over `ranged`
+			var rng *ssa.Range
+			an.Instrs(fn, func(i ssa.Instruction) {
+				if r, ok := i.(*ssa.Range); ok && r.X == side.ranged {
+					rng = r
+				}
+			})
+			if rng == nil {
+				o.Fail(p.Pos(fn.Pos()), "diffMap does not iterate over the keys of %s", an.Expr(side.ranged))
+				continue
+			}
+			var hdr *ssa.BasicBlock
+			var keyv ssa.Value
+			for _, r := range *rng.Referrers() {
+				if nx, ok := r.(*ssa.Next); ok {
+					hdr = nx.Block()
+					keyv = extractOf(nx, 1)
+				}
+			}
+			an.Need(hdr != nil && keyv != nil, "range loop over map")
+			// membership test of the same key in the other map
+			found := false
+			an.Instrs(fn, func(i ssa.Instruction) {
+				lk, ok := i.(*ssa.Lookup)
+				if !ok || lk.X != side.probed || lk.Index != keyv || !lk.CommaOk {
+					return
+				}
+				okv := extractOf(lk, 1)
+				for _, ci := range an.CondIfs(fn, func(v ssa.Value) bool { return okv != nil && v == okv }) {
+					found = true
+					o.Site(ci.If)
+					// from the not-present edge, the loop header must not be reachable without a store into the delta under that key
+					var stores []ssa.Instruction
+					an.Instrs(fn, func(j ssa.Instruction) {
+						if mu, ok := j.(*ssa.MapUpdate); ok && mu.Map == delta && mu.Key == keyv {
+							stores = append(stores, j)
+						}
+					})
+					blk := an.NewBlocker(stores...)
+					first := ci.False.Instrs[0]
+					r := an.Reach(fn, first, blk)
+					if blk.Instr[first] {
+						continue
+					}
+					if r[hdr.Instrs[0]] || r[first] && false {
+						o.FailAt(ci.If, "diffMap can finish handling %s without putting an entry for it into the delta: the merged value keeps/lacks that key", side.what)
+					}
+					for _, e := range an.Exits(fn, false) {
+						if r[e] {
+							o.FailAt(e, "diffMap can return while handling %s without a delta entry for it", side.what)
+						}
+					}
+				}
+			})
+			if !found {
+				o.Fail(p.Pos(fn.Pos()), "diffMap does not test whether a key of %s is present in %s: %s would be diffed like a changed field (Diff(nil, nil) = nil drops a field that appears as null)", an.Expr(side.ranged), an.Expr(side.probed), side.what)
+			}
+		}
+	})
+
+	c.Check("R-GUARD", "diffArray omits the reorder entry only for the identity mapping (same length and indices[i] == i for every i)", 2, func(o *an.O) {
+		fn := c.NeedFunc(dp, "diffArray")
+		var store *ssa.MapUpdate
+		an.Instrs(fn, func(i ssa.Instruction) {
+			if mu, ok := i.(*ssa.MapUpdate); ok {
+				if call, ok := an.StripConv(mu.Value).(*ssa.Call); ok && an.Mod(dp, "", "compressReorderIndices").Matches(call.Common()) {
+					store = mu
+				}
+			}
+		})
+		if store == nil {
+			o.Fail(p.Pos(fn.Pos()), "diffArray never emits reorder indices")
+			return
+		}
+		o.Site(store)
+		gs := an.GuardsOf(store.Block())
+		var flag *ssa.Phi
+		for _, g := range gs {
+			if ph, ok := g.Cond.(*ssa.Phi); ok && g.Polarity {
+				flag = ph
+			}
+		}
+		if flag == nil {
+			// emitted unconditionally (always correct) or under a direct condition
+			extra := 0
+			for _, g := range gs {
+				s := an.Expr(g.Cond)
+				if !strings.Contains(s, ".([]interface{})#1") && !strings.Contains(s, "Pointer()") && !strings.HasPrefix(s, "(len(") {
+					extra++
+				}
+			}
+			if extra > 0 {
+				o.FailAt(store, "the reorder entry is emitted under conditions the rule cannot classify: %v", an.GuardStrings(store.Block()))
+			}
+			return
+		}
+		o.Site(flag)
+		nTrue, nInit := 0, 0
+		for k, e := range flag.Edges {
+			pred := flag.Block().Preds[k]
+			if e == ssa.Value(flag) {
+				continue
+			}
+			if cst, ok := e.(*ssa.Const); ok && cst.Value != nil {
+				if cst.Value.ExactString() != "true" {
+					o.FailAt(flag, "the order-changed flag can be reset to false")
+					continue
+				}
+				nTrue++
+				// guards of pred beyond those of the loop header: exactly indices[i] != i
+				base := map[string]bool{}
+				for _, g := range an.GuardStrings(flag.Block()) {
+					base[g] = true
+				}
+				var extra []an.Guard
+				for _, g := range an.GuardsOf(pred) {
+					s := an.Expr(g.Cond)
+					if !g.Polarity {
+						s = "!" + s
+					}
+					if base[s] || base[strings.TrimPrefix(s, "!")] {
+						continue
+					}
+					if bo, ok := g.Cond.(*ssa.BinOp); ok && bo.Op == token.LSS && an.IsRangeIndex(bo.X) {
+						continue // the loop condition
+					}
+					extra = append(extra, g)
+				}
+				okShape := len(extra) == 1
+				if okShape {
+					bo, ok := extra[0].Cond.(*ssa.BinOp)
+					okShape = ok && ((bo.Op == token.NEQ && extra[0].Polarity) || (bo.Op == token.EQL && !extra[0].Polarity))
+					if okShape {
+						ld, isLd := bo.X.(*ssa.UnOp)
+						okShape = false
+						if isLd {
+							if ia, ok := ld.X.(*ssa.IndexAddr); ok && an.IsRangeIndex(ia.Index) && bo.Y == ia.Index {
+								if call, ok := ia.X.(*ssa.Call); ok && an.Mod(dp, "", "computeReorderIndices").Matches(call.Common()) {
+									okShape = true
+								}
+							}
+						}
+					}
+				}
+				if !okShape {
+					var gsx []string
+					for _, g := range extra {
+						gsx = append(gsx, an.Expr(g.Cond))
+					}
+					o.FailAt(flag, "the reorder entry is requested under %v, not exactly under indices[i] != i: for some non-identity mapping (e.g. an element that is new at its position, index -1) the client is not told to drop/move the old element", gsx)
+				}
+				continue
+			}
+			nInit++
+			s := an.Expr(e)
+			if !(strings.HasPrefix(s, "(len(") && strings.Contains(s, " != len(")) {
+				o.FailAt(flag, "the order-changed flag starts as %s, not as len(old) != len(indices)", s)
+			}
+		}
+		if nTrue == 0 || nInit == 0 {
+			o.FailAt(flag, "the order-changed flag needs both the length test and the per-index test (found %d/%d)", nInit, nTrue)
 		}
 	})
 
